@@ -122,6 +122,71 @@ func iterative(args []string) {
 		}
 
 	case "halt":
+		// directed schedules first (orderings of Iterative.tla that plain timing rarely produces): the search
+		// goroutine is held right after it published depth d (before it decides whether to go on) until a
+		// Halt requested after the consumer saw depth d has returned - Halt must return depth >= d
+		for i := 0; i < 6 && i < *n; i++ {
+			d := 2 + i%3
+			limit := 0
+			if i >= 3 {
+				limit = d // ... also when the goroutine is about to end by itself at the depth limit
+			}
+			ctl := sched.New(r.Int63())
+			ctl.Rules = []*sched.Rule{{Point: "iter.published", Occ: d, Until: "halt.return", UntilOcc: 1 + i%2, Timeout: 3 * time.Second}}
+			verifhook.Install(ctl.Handle)
+			stub := newStub(ctl)
+			it := &searchctl.Iterative{Root: stub}
+			opt := searchctl.Options{}
+			if limit > 0 {
+				opt.DepthLimit = lang.Some(uint(limit))
+			}
+			b := makeRoots(r, 1, false, false, false)[0].b
+			h, ch := it.Launch(ctx, b.Fork(), search.NoTranspositionTable{}, eval.Random{}, opt)
+			var wg sync.WaitGroup
+			wg.Add(1)
+			go func() {
+				defer wg.Done()
+				for pv := range ch {
+					ctl.Mark("consumer.received", pv.Depth)
+				}
+			}()
+			for dd := 1; dd <= d; dd++ {
+				stub.Release(1, dd)
+			}
+			// the consumer has seen depth d (the channel keeps only the latest, so wait for that very depth)
+			deadline := time.Now().Add(3 * time.Second)
+			for seen := false; !seen && time.Now().Before(deadline); time.Sleep(200 * time.Microsecond) {
+				for _, e := range ctl.Events() {
+					if e.Name == "consumer.received" && e.Args[0].(int) == d {
+						seen = true
+					}
+				}
+			}
+			for id := 1; id <= 1+i%2; id++ {
+				id := id
+				wg.Add(1)
+				ctl.Mark("halt.call", id)
+				go func() {
+					defer wg.Done()
+					pv := h.Halt()
+					ctl.Mark("halt.return", id, pv.Depth, proj.ScoreOf(pv.Score).V)
+				}()
+			}
+			done := make(chan struct{})
+			go func() { wg.Wait(); close(done) }()
+			select {
+			case <-done:
+			case <-time.After(10 * time.Second):
+				ctl.Mark("harness.stuck")
+			}
+			for dd := 1; dd <= 12; dd++ {
+				stub.Release(1, dd)
+			}
+			ctl.WaitCount("iter.exit", 1, 5*time.Second)
+			verifhook.Install(nil)
+			ctl.Close()
+			w.Emit(out.M{"op": "iterhalt", "limit": limit, "mate": 0, "events": ctl.Events()})
+		}
 		for i := 0; i < *n; i++ {
 			ctl := sched.New(r.Int63())
 			ctl.Delay, ctl.MaxUs = []int{0, 30, 60}[r.Intn(3)], 400
